@@ -55,6 +55,8 @@ inductive Exc
   | indexError   -- `del lines[k]` / `lines[k]` out of range
   deriving DecidableEq, Repr
 
+deriving instance DecidableEq for Except
+
 /-- `max(lines_to_remove)`. -/
 def pyMax : List Nat → Option Nat
   | [] => none
